@@ -34,9 +34,21 @@ RULE = ('case kinds: sofia (formal table, backend, L_max, min_supp=p/q, stabilit
         'mined again; judged against the CURRENT content, names and hash) -> mv-values / rf-values (point-valued columns with '
         'repeated values, values not representable in float32, values collapsing in float32, constant columns, duplicate '
         'rows) -> trees-growth (max_leaf_nodes best-first numbering, min_samples_leaf, min_samples_split, bootstrap on/off, '
-        'n_jobs of the forest and of the parser, duplicate rows, constant columns; forests repeat node row sets) -> stream '
-        'rf-proper last (proper interval cells, known finding D19).  non-trivial = mixed table / more than one distinct '
-        'value; distinct = distinct full case')
+        'n_jobs of the forest and of the parser, duplicate rows, constant columns; forests repeat node row sets) -> (H8) '
+        'h8-sofia (64/65/128/129 objects with an object index >= 64 that distinguishes concepts; 64/65/128/129 attributes with '
+        'a column pattern found only at the last index and at index 64, judged through the transposed table; tables with '
+        'exactly 64/65/128/129 concepts x L_max in {half, #c-1, #c, #c+1}), h8-sofia-mv / h8-rf (64..129 objects, the last one '
+        'with a value of its own), h8-trees (64..129 rows with pairwise different values, 63..257 nodes per tree, '
+        'max_leaf_nodes 32/33/64/65; 64..129 features of which only the last and feature 64 are informative) -> (H4) '
+        'h4-remine (first use, then an edit that keeps FormalContext.hash_fixed: adler32-colliding table of the same shape, '
+        'colliding names bdb->cbc, both, or a second distinct object with the colliding hash (H4b); asserted to differ and to '
+        'collide), h4-remine-mv (cells -1 <-> -2 keeping hash(pattern structure), 120 <-> 201 keeping adler32 of the hashed '
+        'text, colliding object names; through ps.data, the pattern_structures setter, or a twin object) -> (H7) h7-trees / '
+        'h7-rf (forests of identical trees: #distinct node row sets = node count of one tree; repeated and permuted rows; '
+        'n_jobs in {2, 3, -1, 8, #distinct columns, #distinct columns + 1}) -> stream rf-proper last (proper interval cells, '
+        'known finding D19).  Every rf / tree case also sends the fitted arrays (children_left/right, feature, threshold), the '
+        'float32 table and sklearn\'s decision_path matrix to the Lean tree model.  non-trivial = mixed table / more than one '
+        'distinct value; distinct = distinct full case')
 EXHAUSTIVE = {
     'quick': 'sofia: all 682 tables n,m<=3 x 3 backends x L_max in 1..|Concepts|+2 x min_supp in {0,1,2,0.3,0.5} x both '
              'stability bounds (ConceptLattice.from_context(algo=Sofia) built for every case of the default backend and for the '
@@ -45,15 +57,23 @@ EXHAUSTIVE = {
 EXPLANATION = ('the implementation output is fed to the Lean checker failsC15 (genuine, distinct, top, least, support, '
                'count<=L_max+2, all concepts meeting the threshold when #such+1<=L_max); theorems Fca.C15.* prove these for '
                'the code-shaped model for every tie order, every L_max, every min_supp and every measure function; '
-               'tree extents are compared with the distinct columns of the densified decision_path (Lean treeExtents)')
+               'tree extents are compared with the distinct columns of the densified decision_path (Lean treeExtents); '
+               'the fitted trees are inside the model (Fca.RF: per-row descent on the sklearn arrays over the float32 data): its '
+               'path matrix must EQUAL sklearn\'s decision_path on every fitted tree / forest, its concepts (extents and exact '
+               'intents) must equal those returned by random_forest_concepts, the decidable hypotheses of '
+               'Fca.C15.rf_concepts_genuine (rect, pointValued, castTableOK, forestOK) are evaluated per case, and returned '
+               'extents are judged by the interval pattern-structure closure on exact rationals as well as by the binarised table')
 ASSUMPTIONS = ['min_supp is a non-negative int count or a fraction p/q in [0,1) whose float product with n_objects separates '
                'the integer counts like the exact rational (checked per case)',
                'many-valued contexts: interval columns (IntervalPS / IntervalNumpyPS); genuineness is judged on the '
                'independently computed binarisation (C14 proves same closed sets) and cross-checked with the MVContext\'s '
                'own extension_i/intention_i',
-               'RandomForest part: point-valued interval columns (proper interval cells are finding D19)',
+               'RandomForest part: point-valued interval columns (proper interval cells are finding D19; a FormalContext fed '
+               'to random_forest_concepts is outside the property - Fca.C15.formal_path_not_genuine - and not generated)',
+               'finite float64 cells within the float32 range (sklearn casts the data to float32; the cast enters the model as '
+               'a table value -> float32(value), checked monotone by the driver)',
                'stability values are compared exactly only through the set of surviving concepts']
-TRUSTED = ['sklearn fitted trees and decision_path (data to the model)',
+TRUSTED = ['sklearn fitting (the fitted arrays are data to the model; decision_path itself is modelled and compared per case)',
            'scipy.sparse and the numeric trick of utils.sparse_unique_columns (modelled as: distinct columns)',
            'caspailleur.order.sort_intents_inclusion/inverse_order (modelled by the cover relation; theorems hold for '
            'every measure function, so they do not depend on it)',
@@ -107,12 +127,31 @@ def binarise(data):
     return [[col[g] for col in cols] for g in range(n)]
 
 
-def make_mv(data, ps, target=None):
+def make_mv(data, ps, target=None, objs=None):
     from fcapy.mvcontext import MVContext, PS
     k = len(data[0])
     types = {str(c): getattr(PS, ps[c % len(ps)] if isinstance(ps, (list, tuple)) else ps) for c in range(k)}
     cells = [[tuple(cell) for cell in row] for row in data]
-    return MVContext(cells, pattern_types=types, target=None if target is None else list(target))
+    return MVContext(cells, pattern_types=types, target=None if target is None else list(target),
+                     object_names=None if objs is None else list(objs))
+
+
+H4 = {}      # flags of the last history with a hash-preserving edit (set by the builders, read by impl)
+
+
+def _h4_note(**kw):
+    H4.clear()
+    H4.update(kw)
+
+
+def _ps_hashes(K):
+    out = []
+    for ps_ in K.pattern_structures:
+        try:
+            out.append(hash(ps_))
+        except TypeError:          # IntervalNumpyPS is unhashable
+            out.append(None)
+    return out
 
 
 def canon_ext(ext):
@@ -141,6 +180,36 @@ def fit_model(c):
     X = np.array(c['X'], dtype=float)
     mdl.fit(X, c['y'])
     return mdl, X
+
+
+def rat(x):
+    """exact value of a Python / numpy float as [num, den]"""
+    n_, d_ = float(x).as_integer_ratio()
+    return [n_, d_]
+
+
+def estimators_of(mdl):
+    return list(mdl.estimators_) if hasattr(mdl, 'estimators_') else [mdl]
+
+
+def tree_arrays(mdl):
+    """the fitted trees as DATA for the Lean model: sklearn's arrays, thresholds as exact rationals"""
+    out = []
+    for est in estimators_of(mdl):
+        t = est.tree_
+        out.append(dict(left=[int(v) for v in t.children_left], right=[int(v) for v in t.children_right],
+                        feature=[int(v) for v in t.feature], threshold=[rat(v) for v in t.threshold]))
+    return out
+
+
+def f32(v):
+    import numpy as np
+    return float(np.float32(v))
+
+
+def cast_table(values):
+    """value -> float32(value), keys strictly increasing (what sklearn's descent compares with the thresholds)"""
+    return [[rat(v), rat(f32(v))] for v in sorted({float(v) for v in values})]
 
 
 def dense_paths(mdl, X):
@@ -288,6 +357,74 @@ def _rand_target(rng, n):
             y[0] = 1 - y[0]
         return y
     return [rng.randrange(4) for _ in range(n)]
+
+
+# ---- (H8) size-gated code paths: 64/65 and 128/129 on every index-like dimension, concept counts around L_max
+H8_SIZES = (64, 65, 128, 129)
+
+
+def _h8_tall(rng, n):
+    """n objects, few attributes; attribute 0 = everything but the LAST object, attribute 1 = exactly the objects of the
+    second machine word (index >= 64), the last two objects differ: an index >= 64 distinguishes concepts."""
+    m = rng.randint(3, 5)
+    rows = [[int(rng.random() < 0.6) for _ in range(m)] for _ in range(n)]
+    hi = 64 if n > 64 else n // 2
+    for g in range(n):
+        rows[g][0] = int(g != n - 1)
+        rows[g][1] = int(g >= hi)
+    rows[n - 1][m - 1], rows[n - 2][m - 1] = 1, 0
+    return rows
+
+
+def _h8_wide(rng, m):
+    """few objects, m attributes drawn from 4 column patterns, except that the LAST attribute (and attribute 64 when
+    there is one) carries a pattern that occurs nowhere else: a concept exists only through an attribute index >= 64."""
+    n = rng.randint(4, 5)
+    pats = [p for p in itertools.product((0, 1), repeat=n) if 0 < sum(p) < n]
+    rng.shuffle(pats)
+    cols = [list(rng.choice(pats[:4])) for _ in range(m)]
+    cols[m - 1] = list(pats[4])
+    if m > 64:
+        cols[64] = list(pats[5])
+    return [[cols[j][g] for j in range(m)] for g in range(n)]
+
+
+def _h8_count_table(nc):
+    """a small table with exactly nc in {64, 65, 128, 129} concepts (contranominal scale, plus a full row and an empty
+    column for the odd counts)"""
+    k = 6 if nc in (64, 65) else 7
+    rows = [[int(i != j) for j in range(k)] for i in range(k)]
+    if nc in (65, 129):
+        rows = [r + [0] for r in rows] + [[1] * k + [0]]
+    assert len(closed_extents(rows)) == nc
+    return rows
+
+
+def _h8_point_table(rng, n, k):
+    """n objects; column 0: n pairwise different values (the last object holds the largest), other columns: 3 values"""
+    vals = list(range(n - 1))
+    rng.shuffle(vals)
+    vals.append(n + 5)
+    return [[[vals[g], vals[g]]] + [[v, v] for v in (rng.randrange(3) for _ in range(k - 1))] for g in range(n)]
+
+
+# ---- (H4) hash-preserving edits
+H4_NAMES_A = ['bdb%d' % i for i in range(8)]       # adler_collide_name: 'bdb0' -> 'cbc0'
+H4_NAMES_B = ['mpm%d' % i for i in range(8)]
+H4_DIGITS = [120, 131, 142, 7]                      # str(120.0) / str(201.0) keep zlib.adler32 of the hashed text
+
+
+def _digits_twin(v):
+    t = G.adler_collide_name(str(int(v))) if v >= 100 else None
+    return int(t) if t and t.isdigit() else v
+
+
+def _pyhash_twin_data(data):
+    """every cell -1 <-> -2 (hash(-1.0) == hash(-2.0)): another table whose pattern structures have the same hash()"""
+    def tw(v):
+        w = G.pyhash_collide_value(v)
+        return v if w is None else w
+    return [[[tw(a), tw(b)] for a, b in row] for row in data]
 
 
 def _corpus():
@@ -465,6 +602,161 @@ def gen(tier, seed, boost=False):
         y = [rng.randrange(3) for _ in range(n)] if model.endswith('clf') else [rng.randrange(6) for _ in range(n)]
         yield dict(stream='trees-growth', kind='tree', model=model, X=X, y=y,
                    params=_growth_params(rng, model.startswith('rf')), n_jobs=2 if i % 5 == 0 else 1)
+    # ---- (H8) directed cases that cross 64/65 and 128/129 on every index-like dimension (objects, attributes, concepts,
+    #      tree nodes, features), with an index >= 64 that distinguishes two concepts / row sets
+    for n in H8_SIZES:
+        rows = _h8_tall(rng, n)
+        nc = len(closed_extents(rows))
+        be = rng.choice(BACKENDS)
+        for lmax in sorted({2, max(1, nc - 1), nc + 1}):
+            for ms in ((0, 1), rng.choice(((2, 1), (n, 1), (1, 4), (1, 2)))):
+                if float_threshold_ok(ms, n):
+                    for log in (True, False):
+                        yield dict(stream='h8-sofia', kind='sofia', be=be, rows=rows, lmax=lmax, ms=list(ms), log=log,
+                                   lat=True, shape=['objects=%d' % n])
+        rows = _h8_wide(rng, n)
+        nc = len(closed_extents(rows))
+        be = rng.choice(BACKENDS)
+        for lmax in sorted({2, max(1, nc - 1), nc + 1}):
+            for ms in ((0, 1), (2, 1)):
+                for log in (True, False):
+                    yield dict(stream='h8-sofia', kind='sofia', be=be, rows=rows, lmax=lmax, ms=list(ms), log=log,
+                               lat=True, via='T', shape=['attributes=%d' % n])
+    for nc in H8_SIZES:                     # number of concepts (= length of extents_proj) around L_max
+        rows = _h8_count_table(nc)
+        half = 64 if nc > 65 else 32
+        for lmax in sorted({half, nc - 1, nc, nc + 1}):
+            for log in (True, False):
+                yield dict(stream='h8-sofia', kind='sofia', be=rng.choice(BACKENDS), rows=rows, lmax=lmax, ms=[0, 1],
+                           log=log, lat=(lmax != nc - 1), shape=['concepts=%d' % nc])
+    for n in H8_SIZES:                      # many-valued: n objects, few values, the last object holds a value of its own
+        k = 1 + (n % 2)
+        data = [[[v, v] for v in (rng.randrange(4 - k) for _ in range(k))] for _ in range(n)]   # <= 12 binary attributes
+        data[n - 1][0] = [7, 7]
+        if n > 64:
+            data[64][k - 1] = [-3, -3]
+        ps = [rng.choice(PS_NAMES) for _ in range(k)]
+        nc = len(closed_extents(binarise(data)))
+        for lmax in sorted({2, nc + 1}):
+            for ms in ((0, 1), (2, 1)):
+                yield dict(stream='h8-sofia-mv', kind='sofia-mv', data=data, ps=ps, lmax=lmax, ms=list(ms),
+                           log=rng.random() < 0.5, shape=['objects=%d' % n])
+        # the forest miner on n objects with n different values
+        for _k in range(2):
+            dat = _h8_point_table(rng, n, 1 + _k)
+            yield dict(stream='h8-rf', kind='rf', data=dat, ps=[rng.choice(PS_NAMES) for _ in dat[0]],
+                       y=_rand_target(rng, n), shape=['objects=%d' % n],
+                       params=dict(n_estimators=1 + _k, random_state=rng.randrange(10 ** 6),
+                                   max_depth=rng.choice((3, 5, None)) if n < 128 else rng.choice((3, 5))))
+    for i, n in enumerate(H8_SIZES * 2):    # trees / forests: n rows with n different values; 63..129 nodes per tree
+        vals = list(range(n - 1))
+        rng.shuffle(vals)
+        vals.append(n + 5)
+        X = [[vals[g], rng.randrange(3)] for g in range(n)]
+        model = ('tree-reg', 'rf-clf', 'tree-clf', 'rf-reg')[(i + i // 4) % 4]
+        y = [vals[g] * 3 % 7 for g in range(n)] if model.endswith('clf') else [vals[g] * 5 % 11 + g / 1000 for g in range(n)]
+        params = dict(random_state=rng.randrange(10 ** 6))
+        if i >= 4:
+            params['max_leaf_nodes'] = (32, 33, 64, 65)[i % 4]          # 63, 65, 127, 129 nodes
+        if model.startswith('rf'):
+            params.update(n_estimators=2, bootstrap=bool(i % 2))
+        yield dict(stream='h8-trees', kind='tree', model=model, X=X, y=y, params=params, n_jobs=1 + (i % 2),
+                   shape=['rows=%d' % n])
+    for i, d in enumerate(H8_SIZES):        # many features: only the LAST one (and feature 64) is informative
+        n = 12
+        X = [[1] * d for _ in range(n)]
+        for g in range(n):
+            X[g][d - 1] = g % 4
+            if d > 64:
+                X[g][64] = g // 6
+        model = ('tree-clf', 'rf-reg', 'tree-reg', 'rf-clf')[i]
+        params = dict(random_state=rng.randrange(10 ** 6))
+        if model.startswith('rf'):
+            params.update(n_estimators=2, bootstrap=False, max_features=None)
+        yield dict(stream='h8-trees', kind='tree', model=model, X=X, y=[(g % 4) + 4 * (g // 6) for g in range(n)],
+                   params=params, n_jobs=1 + (i % 2), shape=['features=%d' % d])
+    # ---- (H4) hash-preserving edits inside the use -> mutate -> use histories: a different table / different names with
+    #      the same FormalContext.hash_fixed (zlib.adler32 collisions), also as a second, distinct object (H4b: 'twin')
+    nh4 = 40 if tier == 'quick' else 300
+    for i in range(nh4):
+        rows = G.random_table(rng, 4, 4, 2, 2)
+        n, m = len(rows), len(rows[0])
+        objs0, attrs0 = H4_NAMES_A[:n], H4_NAMES_B[:m]
+        rows0 = G.adler_collide_rows(objs0, attrs0, rows)
+        variant = ('rows', 'objnames', 'attrnames', 'rows+names', 'twin')[i % 5]
+        if rows0 is None and variant in ('rows', 'rows+names', 'twin'):
+            variant = 'objnames'
+        ren = variant in ('objnames', 'rows+names', 'twin'), variant in ('attrnames', 'rows+names', 'twin')
+        objs = [G.adler_collide_name(x) for x in objs0] if ren[0] else objs0
+        attrs = [G.adler_collide_name(x) for x in attrs0] if ren[1] else attrs0
+        nc = len(closed_extents(rows))
+        for lmax in sorted({1, rng.randint(1, nc + 1), nc + 1}):
+            ms = rng.choice(_ms_choices(rng, n, 3))
+            yield dict(stream='h4-remine', kind='sofia', be=rng.choice(BACKENDS), rows=rows, lmax=lmax, ms=list(ms),
+                       log=rng.random() < 0.5, lat=True, objs=objs, attrs=attrs,
+                       hist=dict(rows0=rows0 if variant in ('rows', 'rows+names', 'twin') else rows, objs0=objs0,
+                                 attrs0=attrs0, mut=['h4:' + variant], twin=variant == 'twin',
+                                 lmax0=rng.randint(1, 4), ms0=list(rng.choice(MS_COUNTS))))
+    #      many-valued: cells -1 <-> -2 (same hash() of the pattern structure), 120 <-> 201 (same adler32 of the
+    #      hashed text), colliding object names; through ps.data, through the pattern_structures setter, as a twin object
+    for i in range(nh4 + nh4 // 2):
+        variant = ('pyhash', 'digits', 'pyhash', 'objnames', 'pyhash', 'digits+objnames')[i % 6]
+        n, k = rng.randint(3, 6), rng.randint(1, 2)
+        pool = [-2, -1, -1, -2, 0, 3] if variant == 'pyhash' else H4_DIGITS
+        data = [[[v, v] for v in (rng.choice(pool) for _ in range(k))] for _ in range(n)]
+        data[0][0], data[1][0] = [pool[0], pool[0]], [pool[1], pool[1]]
+        if variant == 'pyhash':
+            # any subset of the -1 / -2 cells may be swapped: the tuple of cells keeps its hash()
+            tw = _pyhash_twin_data(data)
+            data0 = [[tw[g][j] if (g == 0 and j == 0) or rng.random() < 0.5 else data[g][j] for j in range(k)]
+                     for g in range(n)]
+        elif 'digits' in variant:
+            data0 = [[[_digits_twin(a), _digits_twin(b)] for a, b in row] for row in data]
+        else:
+            data0 = data
+        objs0 = H4_NAMES_A[:n]
+        objs = [G.adler_collide_name(x) for x in objs0] if 'objnames' in variant else objs0
+        ps = [rng.choice(PS_NAMES) for _ in range(k)]
+        kind = 'rf' if i % 4 == 3 else 'sofia-mv'
+        mut = ('psdata', 'twin', 'psdata', 'pslist')[(i // 6) % 4] if variant == 'pyhash' else rng.choice(('psdata', 'pslist', 'twin'))
+        c = dict(stream='h4-remine-mv', kind=kind, data=data, ps=ps, objs=objs,
+                 hist=dict(data0=data0, objs0=objs0, mut=mut, h4=variant))
+        if kind == 'rf':
+            c.update(y=_rand_target(rng, n), params=_growth_params(rng, True))
+        else:
+            nc = len(closed_extents(binarise(data)))
+            # a limit that does not bind asks for ALL concepts of the current content
+            c.update(lmax=nc + 1 if i % 2 == 0 else rng.randint(1, nc), ms=list(rng.choice(_ms_choices(rng, n, 3))),
+                     log=rng.random() < 0.5)
+        yield c
+    # ---- (H7) counts that coincide: forests of IDENTICAL trees (bootstrap off, all features: the number of distinct
+    #      node row sets equals the node count of ONE tree), repeated / permuted rows, n_jobs below / equal to / above the
+    #      number of distinct columns and -1
+    nh7 = 40 if tier == 'quick' else 240
+    for i in range(nh7):
+        n, d = rng.randint(3, 10), rng.randint(1, 3)
+        base = [[rng.randrange(4) for _ in range(d)] for _ in range(rng.randint(2, 4))]
+        X = [list(rng.choice(base)) for _ in range(n)]                  # rows repeated (few distinct rows)
+        if i % 4 == 3:
+            X = [[g if j == 0 else rng.randrange(2) for j in range(d)] for g in rng.sample(range(n), n)]   # a permutation
+        model = ('rf-clf', 'rf-reg', 'tree-clf', 'rf-clf', 'rf-reg', 'tree-reg')[i % 6]
+        y = [sum(r) % 3 for r in X] if model.endswith('clf') else [sum(r) % 5 for r in X]
+        if len(set(y)) < 2:
+            y[0] = y[0] + 1
+        params = dict(random_state=rng.randrange(10 ** 6))
+        if model.startswith('rf'):
+            params.update(n_estimators=rng.randint(2, 4))
+            if i % 2 == 0:
+                params.update(bootstrap=False, max_features=None)        # identical trees
+        yield dict(stream='h7-trees', kind='tree', model=model, X=X, y=y, params=params,
+                   n_jobs=(2, 3, -1, 8, 'ncols', 'ncols+1')[i % 6])
+    for i in range(nh7 // 2):
+        data, pools = _rand_point_table(rng, 7, 2)
+        params = dict(n_estimators=rng.randint(2, 4), random_state=rng.randrange(10 ** 6), n_jobs=(2, 3, -1)[i % 3])
+        if i % 2 == 0:
+            params.update(bootstrap=False, max_features=None)
+        yield dict(stream='h7-rf', kind='rf', data=data, ps=[rng.choice(PS_NAMES) for _ in data[0]], pools=pools,
+                   y=_rand_target(rng, len(data)), params=params)
     # proper interval cells: own stream, LAST (known finding D19: node extents need not be closed; the runner stops
     # after 200 failing cases, so this stream is kept small and cannot cut off any other stream)
     nrp = 60 if tier == 'quick' else 240
@@ -493,41 +785,63 @@ def _build_formal(c):
     if hist is None:
         return FormalContext(data=_bools(c['rows']), object_names=c.get('objs'), attribute_names=c.get('attrs'),
                              backend=c['be'])
-    K = FormalContext(data=_bools(hist['rows0']), backend=c['be'])
+    K = FormalContext(data=_bools(hist['rows0']), object_names=hist.get('objs0'), attribute_names=hist.get('attrs0'),
+                      backend=c['be'])
     kw0 = dict(L_max=hist['lmax0'], min_supp=ms_value(hist['ms0']))
     sofia(K, **kw0)                                   # first use: whatever is memoised is memoised now
     [e for _, e in K.to_bin_attr_extents()]
     K.n_bin_attrs, K.hash_fixed(), K.extension_i([]), K.intention_i([])
     ConceptLattice.from_context(K, algo='Sofia', **kw0)
-    if 'data' in hist['mut']:
-        K.data.data = _bools(c['rows'])               # public setter of the table: same shape, new content
-    if c.get('objs'):
-        K.object_names = list(c['objs'])
-    if c.get('attrs'):
-        K.attribute_names = list(c['attrs'])
+    h4 = any(str(m_).startswith('h4:') for m_ in hist['mut'])
+    before = (K.hash_fixed(), K.data.to_list(), list(K.object_names), list(K.attribute_names))
+    if hist.get('twin'):
+        # (H4b) a second, DISTINCT object whose hash_fixed collides with the one just used
+        K = FormalContext(data=_bools(c['rows']), object_names=c.get('objs'), attribute_names=c.get('attrs'),
+                          backend=c['be'])
+    else:
+        if 'data' in hist['mut'] or (h4 and hist['rows0'] != c['rows']):
+            K.data.data = _bools(c['rows'])           # public setter of the table: same shape, new content
+        if c.get('objs'):
+            K.object_names = list(c['objs'])
+        if c.get('attrs'):
+            K.attribute_names = list(c['attrs'])
+    if h4:
+        _h4_note(collides=before[0] == K.hash_fixed(),
+                 differs=before[1:] != (K.data.to_list(), list(K.object_names), list(K.attribute_names)))
     return K
 
 
 def _mutate_mv(K, c):
+    """the mutation step of a many-valued history; returns the context to judge (a NEW object for 'twin')"""
     hist = c['hist']
-    if hist['mut'] == 'psdata':
-        for j, ps_ in enumerate(K.pattern_structures):
-            ps_.data = [tuple(row[j]) for row in c['data']]        # public setter of the pattern structure
+    before = (K.hash_fixed(), _ps_hashes(K), str(K.data), list(K.object_names))
+    if hist['mut'] == 'twin':
+        K = make_mv(c['data'], c['ps'], c.get('y'), c.get('objs'))
     else:
-        K.pattern_structures = make_mv(c['data'], c['ps'], c.get('y')).pattern_structures
+        if hist['mut'] == 'psdata':
+            for j, ps_ in enumerate(K.pattern_structures):
+                ps_.data = [tuple(row[j]) for row in c['data']]        # public setter of the pattern structure
+        else:
+            K.pattern_structures = make_mv(c['data'], c['ps'], c.get('y')).pattern_structures
+        if c.get('objs'):
+            K.object_names = list(c['objs'])
+    if hist.get('h4'):
+        _h4_note(collides=before[0] == K.hash_fixed(), differs=before[2:] != (str(K.data), list(K.object_names)),
+                 pyhash=[a == b for a, b in zip(before[1], _ps_hashes(K)) if a is not None and b is not None])
+    return K
 
 
 def _build_mv_sofia(c):
     hist = c.get('hist')
     if hist is None:
-        return make_mv(c['data'], c['ps'])
+        return make_mv(c['data'], c['ps'], None, c.get('objs'))
     from fcapy.algorithms.concept_construction import sofia
-    K = make_mv(hist['data0'], c['ps'])
+    K = make_mv(hist['data0'], c['ps'], None, hist.get('objs0'))
     sofia(K, L_max=2, min_supp=1)
     [e for _, e in K.to_bin_attr_extents()]
     K.n_bin_attrs, K.hash_fixed(), K.to_numeric()
-    _mutate_mv(K, c)
-    return K
+    _ps_hashes(K), K.extension_i(K.intention_i([0])), K.intention_i(list(range(K.n_objects)))
+    return _mutate_mv(K, c)
 
 
 def _names_ok(K, x, mv):
@@ -543,13 +857,17 @@ def _impl_sofia(c):
     from fcapy.algorithms.concept_construction import sofia
     from fcapy.lattice import ConceptLattice
     mv = c['kind'] == 'sofia-mv'
+    H4.clear()
     K = _build_mv_sofia(c) if mv else _build_formal(c)
+    h4 = dict(H4)
     kw = dict(L_max=c['lmax'], min_supp=ms_value(c['ms']), use_log_stability_bound=c['log'])
     h0 = K.hash_fixed()
     cs = sofia(K, **kw)
     out = dict(ok=[[canon_ext(x.extent_i), canon_pattern(x.intent_i) if mv else sorted(int(a) for a in x.intent_i)]
                    for x in cs])
     out['pure'] = h0 == K.hash_fixed()          # mining must not change the context (names, data)
+    if h4:
+        out['h4'] = h4
     out['names_ok'] = all(_names_ok(K, x, mv) for x in cs)
     out['hash_ok'] = all(x.context_hash == K.hash_fixed() for x in cs)
     if mv:
@@ -573,17 +891,20 @@ def _impl_sofia(c):
 def _impl_rf(c):
     from fcapy.algorithms.concept_construction import random_forest_concepts
     from fcapy.lattice import ConceptLattice
+    H4.clear()
     if c.get('hist'):
-        K = make_mv(c['hist']['data0'], c['ps'], c['y'])
+        K = make_mv(c['hist']['data0'], c['ps'], c['y'], c['hist'].get('objs0'))
         random_forest_concepts(K, rf_params=dict(c['params']))     # first use
-        K.hash_fixed(), K.to_numeric()
-        _mutate_mv(K, c)
+        K.hash_fixed(), K.to_numeric(), _ps_hashes(K)
+        K = _mutate_mv(K, c)
     else:
-        K = make_mv(c['data'], c['ps'], c['y'])
+        K = make_mv(c['data'], c['ps'], c['y'], c.get('objs'))
     h0, p_ = K.hash_fixed(), dict(c['params'])
     cs = random_forest_concepts(K, rf_params=p_)
     out = dict(ok=[[canon_ext(x.extent_i), canon_pattern(x.intent_i)] for x in cs])
     out['pure'] = h0 == K.hash_fixed() and p_ == dict(c['params'])    # neither the context nor the caller's dict changes
+    if H4:
+        out['h4'] = dict(H4)
     out['names_ok'] = all(_names_ok(K, x, True) for x in cs)
     out['hash_ok'] = all(x.context_hash == K.hash_fixed() for x in cs)
     out['intent_ok'] = [canon_pattern(K.intention_i(list(x.extent_i))) == canon_pattern(x.intent_i) for x in cs]
@@ -599,10 +920,14 @@ def _impl_rf(c):
 def _impl_tree(c):
     from fcapy.algorithms.concept_construction import parse_decision_tree_to_extents
     mdl, X = fit_model(c)
+    nj = c.get('n_jobs', 1)
+    if isinstance(nj, str):                # (H7) as many jobs as there are distinct columns / one more
+        M = dense_paths(mdl, X)
+        nj = len({tuple(r_[j] for r_ in M) for j in range(len(M[0]))}) + (1 if nj.endswith('+1') else 0)
     import warnings
     with warnings.catch_warnings():
         warnings.simplefilter('ignore')    # joblib inside a worker process falls back to sequential execution (and says so)
-        exts = parse_decision_tree_to_extents(mdl, X, n_jobs=int(c.get('n_jobs', 1)))
+        exts = parse_decision_tree_to_extents(mdl, X, n_jobs=int(nj))
     n_nodes = sum(e.tree_.node_count for e in mdl.estimators_) if hasattr(mdl, 'estimators_') else mdl.tree_.node_count
     return dict(ok=[canon_ext(e) for e in exts], types=sorted({type(e).__name__ for e in exts}), n_nodes=int(n_nodes))
 
@@ -644,11 +969,17 @@ def requests(c, io):
         rf = cls(**c['params'])
         rf.fit(X, c['y'])
         M = dense_paths(rf, X)
+        # the fitted trees inside the model: context as exact rationals, float32 table, tree arrays, sklearn's matrix
+        D = [[[rat(cell[0]), rat(cell[1])] for cell in row] for row in c['data']]
         return [dict(op='C15.rf', be='bitarray', rows=rows, w=len(rows[0]), M=M, mw=len(M[0]),
-                     out=[[e, None] for e, _ in out])]
+                     out=[[e, None] for e, _ in out]),
+                dict(op='C15.rfmv', D=D, k=len(c['data'][0]), cast=cast_table(v for row in c['data'] for cell in row
+                                                                               for v in cell),
+                     trees=tree_arrays(rf), M=M, out=[e for e, _ in out])]
     mdl, X = fit_model(c)
     M = dense_paths(mdl, X)
-    return [dict(op='C15.tree', M=M, mw=len(M[0]))]
+    return [dict(op='C15.tree', M=M, mw=len(M[0])),
+            dict(op='C15.paths', X=[[rat(f32(v)) for v in row] for row in X.tolist()], trees=tree_arrays(mdl), M=M)]
 
 
 def _fail(kind, detail, **kw):
@@ -661,6 +992,16 @@ def judge(c, io, rep):
     r = rep[0]
     if 'err' in io:
         return _fail('property', f"{c['kind']} raised {io['err']}: {io.get('msg')}", tags=['raised:' + io['err']])
+    hist = c.get('hist') or {}
+    h4v = hist.get('h4')
+    if h4v is None and isinstance(hist.get('mut'), list):
+        h4v = next((m_[3:] for m_ in hist['mut'] if str(m_).startswith('h4:')), None)
+    if h4v:
+        # (H4) the edit of the history really changes the content and really keeps the hash it is meant to keep
+        f4 = io.get('h4') or {}
+        good = f4.get('differs') and (all(f4.get('pyhash', [])) if h4v == 'pyhash' else f4.get('collides'))
+        if not good:
+            return _fail('harness', f'H4 history {h4v}: the generated edit does not differ / does not collide: {f4}')
     if c['kind'] in ('sofia', 'sofia-mv'):
         if not float_threshold_ok(c['ms'], len(c['rows'] if c['kind'] == 'sofia' else c['data'])):
             return _fail('harness', 'float threshold and rational threshold separate counts differently (generator bug)')
@@ -706,6 +1047,19 @@ def judge(c, io, rep):
                                            f"is tie-independent here", tags=['model-differs'])
         return dict(ok=True, diag=None if same else 'stab-bound-prune-differs')
     if c['kind'] == 'rf':
+        r2 = rep[1]
+        # (a) the model of sklearn's decision_path (per-row descent on the tree arrays, float32 data) = the real matrix
+        if not r2['paths_equal']:
+            return _fail('correspondence', f"model decision_path differs from sklearn's at (row, node) {r2['diff']}",
+                         tags=['paths-differ'])
+        hyp = r2['hyp']
+        want_hyp = dict(rect=True, point=not is_proper(c['data']), cast=True, forest=True, k_pos=True)
+        if hyp != want_hyp:
+            return _fail('harness', f"hypotheses of Fca.C15.rf_concepts_genuine evaluate to {hyp}, expected {want_hyp}")
+        # (b) the two closure oracles (binarised table / interval pattern structure on exact rationals) agree
+        if bool(r2['nonclosed']) != ('not-closed' in r['impl_fails']) or r2['has_top'] != ('no-top' not in r['impl_fails']):
+            return _fail('harness', f"closure oracles disagree: binarised {r['impl_fails']} / {r['nonclosed']}, "
+                                    f"pattern structure {r2['nonclosed']} top={r2['has_top']}")
         tags = list(r['impl_fails'])
         if not all(io['intent_ok']):
             tags.append('intent-not-prime')
@@ -725,11 +1079,27 @@ def judge(c, io, rep):
         mexts = sorted(e for e, _ in r['model'])
         if iexts != mexts:
             return _fail('correspondence', f'model extents {mexts} != implementation extents {iexts}', tags=['model-differs'])
+        # (c) the model with the trees inside (RF.rfConceptsMV): same extents, same intents (exact numbers)
+        m2 = sorted((e, [None if d is None else [Fraction(*d[0]), Fraction(*d[1])] for d in ds]) for e, ds in r2['model'])
+        i2 = sorted((e, [None if v is None else [Fraction(*rat(v[0])), Fraction(*rat(v[1]))] for _, v in pat])
+                    for e, pat in io['ok'])
+        if [e for e, _ in m2] != [e for e, _ in i2]:
+            return _fail('correspondence', f"tree-model extents {[e for e, _ in m2]} != implementation extents "
+                                           f"{[e for e, _ in i2]}", tags=['tree-model-differs'])
+        if m2 != i2:
+            return _fail('correspondence', f'tree-model intents differ: model {m2} implementation {i2}', tags=['intent'])
         if 'err' in io['lattice']:
             return _fail('correspondence', f"ConceptLattice.from_context(algo=RandomForest) raised {io['lattice']}",
                          tags=['lattice'])
         return dict(ok=True)
     # tree
+    r2 = rep[1]
+    if not r2['paths_equal']:
+        return _fail('correspondence', f"model decision_path differs from sklearn's at (row, node) {r2['diff']}",
+                     tags=['paths-differ'])
+    if not r2['forest_ok'] or sorted(r2['exts']) != sorted(r['exts']):
+        return _fail('harness', f"tree model: forest_ok={r2['forest_ok']}, node row sets {sorted(r2['exts'])} vs "
+                                f"{sorted(r['exts'])} from sklearn's matrix")
     want = sorted(r['exts'])
     got = io['ok']
     if len(got) != len({tuple(e) for e in got}):
@@ -806,6 +1176,13 @@ def signature(c, io, rep, v):
 
 
 def shrink(c):
+    if str(c.get('stream', '')).startswith('h8'):
+        # the size IS the scenario (a size-gated path): only the other parameters are simplified
+        if c['kind'] in ('sofia', 'sofia-mv') and c['ms'] != [0, 1]:
+            yield dict(c, ms=[0, 1])
+        if c['kind'] == 'tree' and c.get('n_jobs', 1) != 1:
+            yield dict(c, n_jobs=1)
+        return
     if c.get('hist'):
         # first try the same call on a fresh object (no history); the table of a history case is not shrunk
         yield {k: v for k, v in c.items() if k != 'hist'}
